@@ -1,6 +1,7 @@
 package dyn
 
 import (
+	"runtime"
 	"testing"
 	"unsafe"
 
@@ -82,6 +83,19 @@ func mkStriped[T signal.SignalTypes](t int, lens []int) Striped {
 // WriteStripedP / ReadStripedP call the library with a prepared [][]T.
 func WriteStripedP(src Striped, dst Buf) int { return pairs[src.T()][dst.T()].writeStripedP(src, dst) }
 func ReadStripedP(src Buf, dst Striped) int  { return pairs[src.T()][dst.T()].readStripedP(src, dst) }
+
+var msA, msB runtime.MemStats
+
+// MallocsDuring counts the heap allocations made while f runs once, without a warm-up call
+// (testing.AllocsPerRun always makes one, which hides an allocation that only the first call on a fresh
+// object makes, and averages away amortised growth).  Other goroutines may add noise: callers take the
+// minimum over a few fresh objects.
+func MallocsDuring(f func()) uint64 {
+	runtime.ReadMemStats(&msA)
+	f()
+	runtime.ReadMemStats(&msB)
+	return msB.Mallocs - msA.Mallocs
+}
 
 // AllocsPerRun re-exports testing.AllocsPerRun.
 func AllocsPerRun(runs int, f func()) float64 { return testing.AllocsPerRun(runs, f) }
